@@ -355,6 +355,7 @@ _EXTRA13 = {
  'C11': ' A zero homogeneous coordinate is reported on every path (C11-R17); division digit shortcuts are strict (C11-R18).',
  'C13': ' Packed channels are clamped (C13-R16, defect F53 - fixed); the walker position is narrowed only under the repeat masks (C13-R17).',
  'C15': ' The operand data parked by pixman_op is released on every exit (C15-R14).',
+ 'C03': ' The raw trapezoid entry points do not consult the destination clip (C03-R17: known finding F54).',
 }
 for _k, _v in _EXTRA13.items():
     PROPS[_k]['text'] = PROPS[_k]['text'].rstrip() + _v
